@@ -386,6 +386,124 @@ func c09SplitScenarioM(senders, msgs, chanCap, method int) *explore.Scenario {
 	return sc
 }
 
+// c09StmtScenario: two senders, one short message each, with a scheduling point before EVERY statement of package
+// client while they are at it (no state cache: plain memory is not part of the state key). Whatever a command
+// method assembles in memory that the other call can reach shows up as a corrupted, lost or duplicated line.
+func c09StmtScenario(m0, m1 int) *explore.Scenario {
+	sc := &explore.Scenario{
+		Family: "sendstmt",
+		Name:   fmt.Sprintf("sendstmt/methods=%d+%d", m0, m1),
+		Params: map[string]interface{}{"method0": m0, "method1": m1},
+		Opt:    vx.Options{MaxSteps: 60000},
+	}
+	call := func(c *client.Conn, s int) {
+		text := fmt.Sprintf("s%d says hello %%s", s)
+		m := m0
+		if s == 1 {
+			m = m1
+		}
+		switch m {
+		case 0:
+			c.Privmsg(fmt.Sprintf("#c%d", s), text)
+		case 1:
+			c.Notice(fmt.Sprintf("nick%d", s), text)
+		case 2:
+			c.Ctcp(fmt.Sprintf("#c%d", s), "ACTION", text)
+		case 3:
+			c.CtcpReply(fmt.Sprintf("nick%d", s), "FINGER", text)
+		case 4:
+			c.Action(fmt.Sprintf("#c%d", s), text)
+		case 5:
+			c.Join(fmt.Sprintf("#c%d", s), "key")
+		case 6:
+			c.Mode(fmt.Sprintf("#c%d", s), "+o", fmt.Sprintf("nick%d", s))
+		case 7:
+			c.Privmsgf(fmt.Sprintf("#c%d", s), "%s-%d", "formatted", s)
+		}
+	}
+	sc.Main = func(env *vx.Env) {
+		c := NewClient("me", nil)
+		if err := c.Connect(); err != nil {
+			return
+		}
+		vx.Quiesce()
+		call(c, 9) // whatever the method keeps between calls exists
+		vx.Quiesce()
+		vx.StmtAllMode(true)
+		done := vx.NewCounter("senders-done")
+		for s := 0; s < 2; s++ {
+			s := s
+			env.Go(fmt.Sprintf("sender%d", s), func() { call(c, s); done.Add(1) })
+		}
+		done.WaitFor(2)
+		vx.StmtAllMode(false)
+		vx.Quiesce()
+		vx.Observe("ev", fmt.Sprintf("end connected=%v", c.Connected()))
+	}
+	var once sync.Once
+	var expect [2][]string
+	sc.Check = func(o *vx.Outcome) []explore.Finding {
+		if fs := stdOutcome(o); fs != nil {
+			return fs
+		}
+		once.Do(func() {
+			for s := 0; s < 2; s++ {
+				s := s
+				po := RunSeq(vx.Options{}, func(env *vx.Env) {
+					sess, err := StartSession(env, "me", nil, nil)
+					if err != nil {
+						return
+					}
+					n := len(sess.Wire())
+					call(sess.C, s)
+					vx.Quiesce()
+					vx.Observe("pilot", strings.Join(sess.WireSince(n), "\n"))
+					sess.End()
+				})
+				if p := po.Log("pilot"); len(p) == 1 && p[0] != "" {
+					expect[s] = strings.Split(p[0], "\n")
+				}
+			}
+		})
+		if len(o.Conns) != 1 || len(expect[0]) == 0 || len(expect[1]) == 0 {
+			return []explore.Finding{{Oracle: "pilot-failed", Msg: "no socket, or the sequential runs wrote nothing"}}
+		}
+		want := map[string]int{}
+		for s := 0; s < 2; s++ {
+			for _, l := range expect[s] {
+				want[l]++
+			}
+		}
+		var fs []explore.Finding
+		tr := o.Conns[0].Transcript()
+		got := map[string]int{}
+		seenWarm := false
+		for _, l := range o.Conns[0].Lines() {
+			if strings.HasPrefix(l, "NICK ") || strings.HasPrefix(l, "USER ") {
+				continue
+			}
+			if !seenWarm && (strings.Contains(l, "s9 says") || strings.Contains(l, "#c9") || strings.Contains(l, "nick9") || strings.Contains(l, "formatted-9")) {
+				continue // warm-up call (possibly several lines)
+			}
+			got[l]++
+		}
+		for l, n := range want {
+			if got[l] != n {
+				fs = append(fs, explore.Finding{Oracle: "line-lost-or-duplicated", Msg: fmt.Sprintf("line %q is on the wire %d times, expected %d :: wire=%s", l, got[l], n, Q(tr))})
+				break
+			}
+		}
+		for l := range got {
+			if want[l] == 0 {
+				fs = append(fs, explore.Finding{Oracle: "line-corrupted", Msg: fmt.Sprintf("line %q on the wire is not one either call produces on its own :: wire=%s", l, Q(tr))})
+				break
+			}
+		}
+		return fs
+	}
+	return sc
+}
+
 // c09LadderSession hands Raw one line of each of the given lengths over one connection and compares the wire.
 func c09LadderSession(lens []int) (oracle, msg string) {
 	line := func(n int) string {
@@ -524,7 +642,7 @@ func init() {
 	}
 	Register(&Prop{
 		ID:   "C09",
-		Rule: "2-3 concurrent user senders x 1-3 lines (alternating Raw / Privmsg), optionally a foreground handler answering 1-2 incoming events with 1-2 lines, server reading at once or through a 64-byte pipe drained line by line by a server task, queue capacity 32 / 2 / 1, senders started after or during registration; 2-4 concurrent senders of messages that SplitLen = 60 splits into 3-4 lines each (Privmsg, Notice, Ctcp, CtcpReply to different targets, mixed or all senders using the same method after a warm-up message; expected lines = what the same calls produce alone); one sender with Raw lines of every length 1..1300 and around 2048 / 4096 / 8192 bytes compared byte for byte, plus lines that begin / end in or consist of white space; a server ERROR line that is not followed by a hang-up; small harnesses are explored without any deviation bound (state cache), the rest within K<=2-3; distinct = distinct wire transcripts per scenario",
+		Rule: "2-3 concurrent user senders x 1-3 lines (alternating Raw / Privmsg), optionally a foreground handler answering 1-2 incoming events with 1-2 lines, server reading at once or through a 64-byte pipe drained line by line by a server task, queue capacity 32 / 2 / 1, senders started after or during registration; 2-4 concurrent senders of messages that SplitLen = 60 splits into 3-4 lines each (Privmsg, Notice, Ctcp, CtcpReply to different targets, mixed or all senders using the same method after a warm-up message; expected lines = what the same calls produce alone); one sender with Raw lines of every length 1..1300 and around 2048 / 4096 / 8192 bytes compared byte for byte, plus lines that begin / end in or consist of white space; a server ERROR line that is not followed by a hang-up; two senders with one message each under statement-granularity interleaving of package client (seven method pairs, K<=2, no state cache); small harnesses are explored without any deviation bound (state cache), the rest within K<=2-3; distinct = distinct wire transcripts per scenario",
 		Assumptions: []string{
 			"interleavings at synchronisation/channel/socket granularity (DESIGN.md 3.8)",
 			"unbounded mode relies on the happens-before state cache; cache-on/off agreement is cross-checked at a small bound",
@@ -587,6 +705,10 @@ func init() {
 				jobs = append(jobs, ExploreJob("C09", ExploreSpec{Sc: c09SplitScenarioM(2, 1, 1, method), Variants: []int{1, 2, 3}, Budgets: b2, Cache: true}, 30))
 			}
 			jobs = append(jobs, ExploreJob("C09", ExploreSpec{Sc: c09SplitScenarioM(3, 2, 2, 0), Variants: []int{1, 2, 3}, Budgets: b2, Cache: true}, 30))
+			// statement-granularity interleaving of two command methods (no state cache)
+			for _, pr := range [][2]int{{2, 3}, {0, 1}, {2, 2}, {0, 0}, {4, 7}, {5, 6}, {3, 3}} {
+				jobs = append(jobs, ExploreJob("C09", ExploreSpec{Sc: c09StmtScenario(pr[0], pr[1]), Variants: []int{1, 2, 3}, Budgets: b2, Cache: false}, 40))
+			}
 			jobs = append(jobs, c09LadderJob())
 			// an ERROR line from a server that does not hang up afterwards: the connection is up, lines are still due
 			add(c09Params{Senders: 2, Lines: 2, SrvErr: true}, b2, []int{1, 2, 3}, 20, false)
